@@ -1331,7 +1331,7 @@ theorem QInv.push {n : Nat} {q mk : List Nat} (h : QInv n q mk) {x : Nat} (hx : 
     · exact h.mlt y hy
     · rw [List.mem_singleton.1 hy]; exact hx
   · rw [List.nodup_append]
-    refine ⟨h.nodup, List.nodup_singleton x, ?_⟩
+    refine ⟨h.nodup, by simp, ?_⟩
     intro a ha b hb e
     rw [List.mem_singleton.1 hb] at e
     exact hn (e ▸ ha)
@@ -1406,17 +1406,259 @@ theorem colourDarts_total (sid : Nat) : ∀ (ds q mk : List Nat) (m : Map Val), 
         by_cases hav : (m1.att sVA (cellId m1 .vertex d)).isNone = true
         · simp only [hav, if_true]
           rw [run_bind, run_bind, run_vid' h1.wf hd1]
-          simp only [run_wA, h1.okA (by decide : sVA ≤ 8) hv1, if_true]
+          simp only [run_wA', h1.okA (by decide : sVA ≤ 8) hv1, if_true]
           have g2 : Grow m1 (m1.setA sVA (cellId m1 .vertex d) (some (vSurface sid))) := Grow.setA _ _ _ _
           obtain ⟨add, m', hr, g, hqi⟩ := key _ g2
-          refine ⟨add, m', ?_, g1.trans (g2.trans g), by rw [← hn1]; exact hqi⟩
+          refine ⟨add, m', ?_, g1.trans (g2.trans g), hqi⟩
           rw [← hr]
         · simp only [hav, if_false, Bool.false_eq_true, Prog.pure_eq]
           rw [run_bind]
           simp only [run_ret]
           obtain ⟨add, m', hr, g, hqi⟩ := key m1 (Grow.refl m1)
-          refine ⟨add, m', ?_, g1.trans g, by rw [← hn1]; exact hqi⟩
+          refine ⟨add, m', ?_, g1.trans g, hqi⟩
           rw [← hr]
+
+theorem orb_lt {m : Map Val} (h : WF 3 m) {pol : Policy} (hp : PolOK pol) {x : Nat} (hx : x < m.n) :
+    ∀ y, y ∈ orb m pol x → y < m.n := by
+  intro y hy
+  by_cases h0 : x = 0
+  · subst h0
+    rw [orb_zero h hp, List.mem_singleton] at hy
+    rw [hy]; exact hx
+  · exact (C03_orbit2_spec h hp h0 hx).2.2.2.2.2 y hy
+
+/-- the face queue empties: with more fuel than `|queue| + (n_darts - |marked|)` the colouring of one
+    surface ends with `Ok` -/
+theorem colourSurface_total (sid : Nat) : ∀ (f : Nat) (q mk : List Nat) (m : Map Val), Ok9 m →
+    QInv m.n q mk → q.length + (m.n - mk.length) < f →
+    ∃ mk' m', run (colourSurface m.n sid f q mk) m = (.ok mk', m') ∧ Grow m m' ∧ QInv m.n [] mk' := by
+  intro f
+  induction f with
+  | zero => intro q mk m _ _ hf; omega
+  | succ f ih =>
+      intro q mk m h hq hf
+      cases q with
+      | nil =>
+          exact ⟨mk, m, by simp [colourSurface], Grow.refl m, hq⟩
+      | cons crt q =>
+          have hcrt : crt < m.n := hq.qlt crt List.mem_cons_self
+          have hq' : QInv m.n q mk := ⟨fun x hx => hq.qlt x (List.mem_cons_of_mem _ hx), hq.mlt, hq.nodup⟩
+          unfold colourSurface
+          simp only [Prog.bind_eq, run_wA, h.okA (by decide : sFA ≤ 8) hcrt, if_true]
+          have g1 : Grow m (m.setA sFA crt (some (vSurface sid))) := Grow.setA _ _ _ _
+          generalize m.setA sFA crt (some (vSurface sid)) = m1 at g1
+          have h1 := h.sameTopo g1.topo
+          have hn1 : m1.n = m.n := g1.topo.n
+          rw [← hn1]
+          have hcrt1 : crt < m1.n := by rw [hn1]; exact hcrt
+          rw [run_bind, run_orbit2' h1.wf (pol := .face) trivial hcrt1]
+          simp only
+          obtain ⟨add, m2, hr2, g2, hq2⟩ := colourDarts_total sid (orb m1 .face crt) q mk m1 h1
+            (orb_lt h1.wf (pol := .face) trivial hcrt1) (by rw [hn1]; exact hq')
+          rw [run_bind, hr2]
+          simp only
+          have h2 := h1.sameTopo g2.topo
+          have hn2 : m2.n = m1.n := g2.topo.n
+          have hlen := hq2.len
+          have hlen0 := hq'.len
+          have hf2 : (q ++ add).length + (m2.n - (mk ++ add).length) < f := by
+            simp only [List.length_append, List.length_cons] at hf hlen ⊢
+            rw [hn2, hn1]
+            rw [hn1] at hlen
+            omega
+          obtain ⟨mk', m', hr, g, hqf⟩ := ih (q ++ add) (mk ++ add) m2 h2 (by rw [hn2]; exact hq2) hf2
+          rw [hn2] at hr hqf
+          exact ⟨mk', m', hr, g1.trans (g2.trans g), hqf⟩
+
+/-- the third loop always ends with `Ok` -/
+theorem classifySurfaces_total : ∀ (ds : List Nat) (sid : Nat) (mk : List Nat) (m : Map Val), Ok9 m →
+    (∀ d, d ∈ ds → d ≠ 0 ∧ d < m.n) → QInv m.n [] mk →
+    ∃ m', run (classifySurfaces m.n ds sid mk) m = (.ok (), m') := by
+  intro ds
+  induction ds with
+  | nil => intro sid mk m _ _ _; exact ⟨m, rfl⟩
+  | cons x xs ih =>
+      intro sid mk m h hds hq
+      have hx := hds x List.mem_cons_self
+      have hxs : ∀ d, d ∈ xs → d ≠ 0 ∧ d < m.n := fun d hd => hds d (List.mem_cons_of_mem _ hd)
+      unfold classifySurfaces
+      simp only [Prog.bind_eq, run_rU, (h.wf.toSized.okU x).2 hx.2, if_true]
+      by_cases hux : m.unused x = true
+      · simp only [hux, if_true]; exact ih sid mk m h hxs hq
+      · simp only [hux, if_false, Bool.false_eq_true]
+        rw [run_bind, run_fid' h.wf hx.2]
+        simp only
+        by_cases hcx : cellId m .face x ≠ x
+        · simp only [hcx, if_true, ne_eq, not_false_eq_true]; exact ih sid mk m h hxs hq
+        · simp only [hcx, if_false]
+          simp only [run_rA, h.okA (by decide : sFA ≤ 8) hx.2, if_true]
+          by_cases ha : (m.att sFA x).isSome = true
+          · simp only [ha, if_true]; exact ih sid mk m h hxs hq
+          · simp only [ha, if_false, Bool.false_eq_true]
+            have hq1 : QInv m.n [x] mk := ⟨fun y hy => by rw [List.mem_singleton.1 hy]; exact hx.2, hq.mlt, hq.nodup⟩
+            obtain ⟨mk', m1, hr1, g1, hq'⟩ := colourSurface_total sid (m.n + 2) [x] mk m h hq1
+              (by simp only [List.length_singleton]; omega)
+            rw [run_bind, hr1]
+            simp only
+            have h1 := h.sameTopo g1.topo
+            have hn1 : m1.n = m.n := g1.topo.n
+            have := ih (sid + 1) mk' m1 h1 (fun d hd => by rw [hn1]; exact hxs d hd) (by rw [hn1]; exact hq')
+            rw [hn1] at this
+            exact this
+
+/-- the first loop ends with `Ok` or with the `UnsupportedGeometry` of a `mark_curve` call -/
+theorem classifyNodes_total : ∀ (ds : List Nat) (i cid : Nat) (m : Map Val), Ok9 m →
+    (∀ d, d ∈ ds → d ≠ 0 ∧ d < m.n) →
+    (∃ r m', run (classifyNodes m.n ds i cid) m = (.ok r, m')) ∨
+    (∃ m', run (classifyNodes m.n ds i cid) m = (.err errUnsupportedGeometry, m')) := by
+  intro ds
+  induction ds with
+  | nil => intro i cid m _ _; exact Or.inl ⟨cid, m, rfl⟩
+  | cons x xs ih =>
+      intro i cid m h hds
+      have hx := hds x List.mem_cons_self
+      have hxs : ∀ d, d ∈ xs → d ≠ 0 ∧ d < m.n := fun d hd => hds d (List.mem_cons_of_mem _ hd)
+      unfold classifyNodes
+      simp only [Prog.bind_eq, run_rU, (h.wf.toSized.okU x).2 hx.2, if_true]
+      by_cases hux : m.unused x = true
+      · simp only [hux, if_true]; exact ih i cid m h hxs
+      · simp only [hux, if_false, Bool.false_eq_true]
+        rw [run_bind, run_vid' h.wf hx.2]
+        simp only
+        by_cases hcx : cellId m .vertex x ≠ x
+        · simp only [hcx, if_true, ne_eq, not_false_eq_true]; exact ih i cid m h hxs
+        · simp only [hcx, if_false]
+          simp only [run_rA, h.okA (by decide : sVA ≤ 8) hx.2, if_true]
+          by_cases ha : (m.att sVA x).isNone = true
+          · simp only [ha, if_true]; exact ih i cid m h hxs
+          · simp only [ha, if_false, Bool.false_eq_true]
+            rw [run_bind, run_freeDart h.wf hx.2]
+            cases hfo : freeOf m x with
+            | none => exact ih i cid m h hxs
+            | some dart =>
+                simp only
+                obtain ⟨hmem, hb2⟩ := freeOf_some hfo
+                obtain ⟨hdlt, _⟩ := mem_vorb h.wf hx.2 hmem
+                have hd0 : dart ≠ 0 := ((mem_orb h.wf (pol := .vertex) trivial hx.1 hx.2 dart).1 hmem).1
+                obtain ⟨m2, hres, g2, _⟩ := C17_markCurve_terminates h.wf h.st hd0 hdlt i
+                rw [run_bind]
+                rcases hres with hr | ⟨hr, _⟩
+                · rw [hr]
+                  simp only
+                  have := ih (i + 1) (max cid i) m2 (h.sameTopo g2.topo)
+                    (fun d hd => by rw [g2.topo.n]; exact hxs d hd)
+                  rw [g2.topo.n] at this
+                  exact this
+                · rw [hr]; exact Or.inr ⟨m2, rfl⟩
+
+/-- the scan of a final assertion always answers -/
+theorem allAnchored_total {m : Map Val} (h : Ok9 m) {s : Nat} (hs : s ≤ 8) {idf : Nat → P Val Nat}
+    (cid : Nat → Nat) (hid : ∀ d, d ≠ 0 → d < m.n → run (idf d) m = (.ok (cid d), m)) :
+    ∀ ds, (∀ d, d ∈ ds → d ≠ 0 ∧ d < m.n) → ∃ r, run (allAnchored s idf ds) m = (.ok r, m) := by
+  intro ds
+  induction ds with
+  | nil => intro _; exact ⟨true, rfl⟩
+  | cons x xs ih =>
+      intro hds
+      have hx := hds x List.mem_cons_self
+      have hxs : ∀ d, d ∈ xs → d ≠ 0 ∧ d < m.n := fun d hd => hds d (List.mem_cons_of_mem _ hd)
+      unfold allAnchored
+      simp only [Prog.bind_eq, run_rU, (h.wf.toSized.okU x).2 hx.2, if_true]
+      by_cases hux : m.unused x = true
+      · simp only [hux, if_true]; exact ih hxs
+      · simp only [hux, if_false, Bool.false_eq_true]
+        rw [run_bind, hid x hx.1 hx.2]
+        simp only
+        by_cases hcx : cid x ≠ x
+        · simp only [hcx, if_true, ne_eq, not_false_eq_true]; exact ih hxs
+        · simp only [hcx, if_false]
+          simp only [run_rA, h.okA hs hx.2, if_true]
+          by_cases ha : (m.att s x).isNone = true
+          · simp only [ha, if_true]; exact ⟨false, rfl⟩
+          · simp only [ha, if_false, Bool.false_eq_true]; exact ih hxs
+
+/-- **C17, `classify_capture` is total on well-formed maps**: on every well-formed 2-map carrying the
+    anchor storages — whatever anchors it holds — the function terminates (no loop exhausts the fuel
+    the model gives it) and its outcome is `Ok`, `UnsupportedGeometry` (from a `mark_curve` walk that
+    left the boundary), or the panic of one of the three final `debug_assert!`s after the three loops
+    ended with `Ok`; no other panic (index out of range) can occur -/
+theorem C17_classify_terminates {m : Map Val} (h : WF 3 m) (hst : 8 < m.a.size) :
+    ∃ m', run (classifyCapture m.n) m = (.ok (), m') ∨
+      run (classifyCapture m.n) m = (.err errUnsupportedGeometry, m') ∨
+      (run (classifyCapture m.n) m = (.panic, m') ∧ run (classifyCore m.n) m = (.ok (), m')) := by
+  have h9 : Ok9 m := ⟨h, hst⟩
+  have hds : ∀ d, d ∈ List.range' 1 (m.n - 1) → d ≠ 0 ∧ d < m.n := fun d hd => mem_darts.1 hd
+  -- the three loops
+  have core : (∃ m3, run (classifyCore m.n) m = (.ok (), m3) ∧ Grow m m3) ∨
+      (∃ m3, run (classifyCore m.n) m = (.err errUnsupportedGeometry, m3)) := by
+    unfold classifyCore
+    simp only [Prog.bind_eq]
+    rcases classifyNodes_total _ 0 0 m h9 hds with ⟨cid, m1, h1⟩ | ⟨m1, h1⟩
+    · rw [run_bind, h1]
+      simp only
+      have g1 : Grow m m1 := by
+        have := anch_classifyNodes m.n (List.range' 1 (m.n - 1)) 0 0 m; rw [h1] at this; exact this
+      have h91 := h9.sameTopo g1.topo
+      have hn1 : m1.n = m.n := g1.topo.n
+      have hl := C17_boundary_loop_terminates h91.wf h91.st cid
+      rw [hn1] at hl
+      rcases hl with ⟨r, m2, h2⟩ | ⟨m2, h2⟩
+      · rw [run_bind, h2]
+        simp only
+        have g2 : Grow m1 m2 := by
+          have := anch_classifyLoops m.n (m.n + 1) cid m1; rw [h2] at this; exact this
+        have h92 := h91.sameTopo g2.topo
+        have hn2 : m2.n = m.n := by rw [g2.topo.n, hn1]
+        have hq0 : QInv m2.n [] [0] := by
+          refine ⟨?_, ?_, ?_⟩
+          · intro x hx; cases hx
+          · intro x hx; rw [List.mem_singleton.1 hx]; exact h92.wf.toSized.npos
+          · simp
+        obtain ⟨m3, h3⟩ := classifySurfaces_total (List.range' 1 (m2.n - 1)) 0 [0] m2 h92
+          (fun d hd => mem_darts.1 hd) hq0
+        rw [hn2] at h3
+        have g3 : Grow m2 m3 := by
+          have := anch_classifySurfaces m.n (List.range' 1 (m.n - 1)) 0 [0] m2; rw [h3] at this; exact this
+        exact Or.inl ⟨m3, h3, g1.trans (g2.trans g3)⟩
+      · rw [run_bind, h2]
+        exact Or.inr ⟨m2, rfl⟩
+    · rw [run_bind, h1]
+      exact Or.inr ⟨m1, rfl⟩
+  unfold classifyCapture
+  simp only [Prog.bind_eq]
+  rcases core with ⟨m3, hc, g⟩ | ⟨m3, hc⟩
+  · rw [run_bind, hc]
+    simp only
+    have h93 := h9.sameTopo g.topo
+    have hn3 : m3.n = m.n := g.topo.n
+    have hds3 : ∀ d, d ∈ List.range' 1 (m.n - 1) → d ≠ 0 ∧ d < m3.n := fun d hd => by
+      rw [hn3]; exact hds d hd
+    obtain ⟨av, hav⟩ := allAnchored_total h93 (by decide : sVA ≤ 8) (idf := vertexId2 m.n) (cellId m3 .vertex)
+      (fun d hd0 hd => by have := (C03_vertexId2_min h93.wf hd0 hd).1; rw [hn3] at this; exact this) _ hds3
+    obtain ⟨ae, hae⟩ := allAnchored_total h93 (by decide : sEA ≤ 8) (idf := edgeId2) (cellId m3 .edge)
+      (fun d hd0 hd => (C03_edgeId2_min h93.wf hd0 hd).1) _ hds3
+    obtain ⟨af, haf⟩ := allAnchored_total h93 (by decide : sFA ≤ 8) (idf := faceId2 m.n) (cellId m3 .face)
+      (fun d hd0 hd => by have := (C03_faceId2_min h93.wf hd0 hd).1; rw [hn3] at this; exact this) _ hds3
+    refine ⟨m3, ?_⟩
+    rw [run_bind, hav]
+    simp only
+    cases av with
+    | false => exact Or.inr (Or.inr ⟨rfl, rfl⟩)
+    | true =>
+        simp only [Bool.not_true, Bool.false_eq_true, if_false]
+        rw [run_bind, hae]
+        simp only
+        cases ae with
+        | false => exact Or.inr (Or.inr ⟨rfl, rfl⟩)
+        | true =>
+            simp only [Bool.not_true, Bool.false_eq_true, if_false]
+            rw [run_bind, haf]
+            simp only
+            cases af with
+            | false => exact Or.inr (Or.inr ⟨rfl, rfl⟩)
+            | true => exact Or.inl rfl
+  · rw [run_bind, hc]
+    exact ⟨m3, Or.inr (Or.inl rfl)⟩
 
 /-! ## the assertions are not redundant on arbitrary well-formed maps -/
 
